@@ -104,7 +104,7 @@ func encodeJsonArray(jsonArray []any, largeEncoding bool) (typeId byte, encodedA
 			}
 			valueEntriesBuffer = appendForEncoding(valueEntriesBuffer, uint32(encodedValue[0]), largeEncoding)
 		} else {
-			if !largeEncoding && nextValuesOffset > maxOffsetSize-uint32(len(encodedValue)) {
+			if !largeEncoding && uint64(nextValuesOffset)+uint64(len(encodedValue)) > uint64(maxOffsetSize) {
 				return 0, nil, fmt.Errorf("offset too large for small array encoding")
 			}
 
@@ -167,7 +167,7 @@ func encodeJsonObject(jsonObject map[string]any, largeEncoding bool) (typeId byt
 		//       for JSON objects.
 		encodedValue := []byte(key)
 
-		if !largeEncoding && nextKeysOffset > maxOffsetSize-uint32(len(encodedValue)) {
+		if !largeEncoding && uint64(nextKeysOffset)+uint64(len(encodedValue)) > uint64(maxOffsetSize) {
 			return 0, nil, fmt.Errorf("offset too large for small object encoding")
 		}
 
@@ -199,7 +199,7 @@ func encodeJsonObject(jsonObject map[string]any, largeEncoding bool) (typeId byt
 			}
 			valueEntriesBuffer = appendForEncoding(valueEntriesBuffer, uint32(encodedValue[0]), largeEncoding)
 		} else {
-			if !largeEncoding && nextValuesOffset > maxOffsetSize-uint32(len(encodedValue)) {
+			if !largeEncoding && uint64(nextValuesOffset)+uint64(len(encodedValue)) > uint64(maxOffsetSize) {
 				return 0, nil, fmt.Errorf("offset too large for small object encoding")
 			}
 
